@@ -38,19 +38,19 @@ func theRaceLog() *kernel.RaceLog {
 
 // tOp kinds
 const (
-	tPrepare     = iota // Credential.NonrevPrepareCache
-	tProveNonrev        // CreateDisclosureProof with non-revocation part
-	tProvePlain         // CreateDisclosureProof without
-	tProveRange         // with a range statement
-	tVerify             // verify an own copy of a pre-made proof under the shared public key
-	tRandRead           // read n bytes from the process-wide generator
-	tRandomQR           // common.RandomQR on the shared modulus
-	tProveList          // BuildProofList over two credentials (linked proofs)
-	tIssueCommit        // issuance commitment (ProofU) with the shared secret
-	tRandStress         // tight loop of 2000 one-block reads from the process-wide generator (free-running class)
-	tGenKey             // gabikeys.GenerateKeyPair at a toy length (free-running class: parallel key generation under the race detector)
-	tVerifyUpdate       // Update.Verify on one update object made by the issuer itself (in-process authority) and shared by all tasks
-	tIssueRetry         // one CredentialBuilder answering twice (issuer nonce changed after a dropped session; or a proof list first): same U, fresh randomness
+	tPrepare      = iota // Credential.NonrevPrepareCache
+	tProveNonrev         // CreateDisclosureProof with non-revocation part
+	tProvePlain          // CreateDisclosureProof without
+	tProveRange          // with a range statement
+	tVerify              // verify an own copy of a pre-made proof under the shared public key
+	tRandRead            // read n bytes from the process-wide generator
+	tRandomQR            // common.RandomQR on the shared modulus
+	tProveList           // BuildProofList over two credentials (linked proofs)
+	tIssueCommit         // issuance commitment (ProofU) with the shared secret
+	tRandStress          // tight loop of 2000 one-block reads from the process-wide generator (free-running class)
+	tGenKey              // gabikeys.GenerateKeyPair at a toy length (free-running class: parallel key generation under the race detector)
+	tVerifyUpdate        // Update.Verify on one update object made by the issuer itself (in-process authority) and shared by all tasks
+	tIssueRetry          // one CredentialBuilder answering twice (issuer nonce changed after a dropped session; or a proof list first): same U, fresh randomness
 	tOpKinds
 )
 
